@@ -767,7 +767,7 @@ class AdapterLookupBase:
 
     def changed(self, ignored=None):
         super().changed(None)
-        for r in self._required.keys():
+        for r in tuple(self._required.keys()):
             r = r()
             if r is not None:
                 r.unsubscribe(self)
@@ -966,7 +966,7 @@ class AdapterRegistry(BaseAdapterRegistry):
     def changed(self, originally_changed):
         super().changed(originally_changed)
 
-        for sub in self._v_subregistries.keys():
+        for sub in tuple(self._v_subregistries.keys()):
             sub.changed(originally_changed)
 
 
